@@ -46,10 +46,10 @@ proof fn lemma_circuit_lin(n: int)
     }
 }
 
-/// what `collect::<BTreeSet<_>>()` promises about the item sequence `rem` it consumed (see prelude/list_ops_std.rs)
-spec fn collected(rem: Seq<(usize, usize)>, s: BTreeSet<(usize, usize)>) -> bool {
-    <BTreeSet<(usize, usize)> as vstd::std_specs::iter::FromIteratorSpec<(usize, usize)>>::from_iter_ensures(rem, s)
-}
+// The generators below build the arc set as `(range).map(closure).collect()` inside the returned struct literal, so the
+// collected set cannot be named in a hint.  Each hint therefore states, for EVERY candidate item sequence `rem` and set `s`
+// related by vstd's `collect` contract (`FromIteratorSpec::from_iter_ensures(rem, s)`, given meaning for BTreeSet by the
+// assumed axiom_btree_set_from_iter in prelude/list_ops_std.rs), that items of the expected shape give the defining predicate.
 
 impl EdgeList {
     /*@fn trait=Empty name=trivial file=src/gen/empty.rs dropwhere=Self
